@@ -86,6 +86,8 @@ def instances(tier="quick"):
             for im in (0, 1, 7, 15, 16, 31, 33):
                 add("%s%s $%d, %%%s" % (op, s, im, REGS[w][2]), op, w, "ri")
             add("%s%s $3, %s" % (op, s, MEMS[0]), op, w, "mi")
+            # register bit offset into memory: the offset selects the word / dword (offset DIV size), not only the bit
+            add("%s%s %%%s, %s" % (op, s, REGS[w][1], MEMS[0]), op, w, "rm")
         for op in ("bsf", "bsr"):
             add("%s%s %%%s, %%%s" % (op, s, REGS[w][1], REGS[w][0]), op, w, "rr")
             add("%s%s %s, %%%s" % (op, s, MEMS[0], REGS[w][2]), op, w, "mr")
